@@ -118,5 +118,5 @@ def search(seed, tier, hints):
 
 def replay(payload):
     print("replay input:", payload.get("input"))
-    print("re-run the check with the recorded seed to reproduce (real files and mtimes are involved)")
-    return 0
+    print("re-running the check with the recorded seed and tier (real files and mtimes are involved)")
+    return common.replay_by_rerun("C17", payload)
